@@ -396,3 +396,92 @@ func recordCalibration(r *vlib.Run, rep *calibReport) {
 		r.Inconclusive("reference resolver disagrees with a recorded protoc answer (bug in the reference): " + m)
 	}
 }
+
+// ---------- source-level differential (hand-minimised cases) ----------
+
+type c15Fixed struct {
+	id  string
+	src map[string]string
+}
+
+var c15FixedCases = []c15Fixed{
+	{"fixed/non-type-at-package-scope-is-skipped", map[string]string{
+		"a.proto": "syntax = \"proto2\";\npackage a;\nmessage T {}\n",
+		"b.proto": "syntax = \"proto2\";\npackage a.b;\nimport \"a.proto\";\nmessage Ext { extensions 100 to 199; }\nextend Ext { optional int32 T = 100; }\nmessage M { optional T f = 1; }\n",
+	}},
+	{"fixed/non-type-at-package-scope-is-skipped-root", map[string]string{
+		"a.proto": "syntax = \"proto2\";\nmessage T {}\n",
+		"b.proto": "syntax = \"proto2\";\npackage a;\nimport \"a.proto\";\nmessage Ext { extensions 100 to 199; }\nextend Ext { optional int32 T = 100; }\nmessage M { optional T f = 1; }\n",
+	}},
+	{"fixed/non-type-service-at-package-scope-is-skipped", map[string]string{
+		"a.proto": "syntax = \"proto2\";\npackage a;\nenum T { Z = 0; }\n",
+		"b.proto": "syntax = \"proto2\";\npackage a.b;\nimport \"a.proto\";\nmessage M { optional T f = 1; }\nservice T {}\n",
+	}},
+	{"fixed/by-product-literal-extension-of-another-message", map[string]string{
+		"x.proto": "syntax = \"proto2\";\nimport \"google/protobuf/descriptor.proto\";\nmessage A { extensions 100 to 199; }\nmessage B { extensions 100 to 199; }\nextend A { optional int32 xa = 100; }\nextend google.protobuf.MessageOptions { optional B opt = 50001; }\nmessage M { option (opt) = { [xa]: 1 }; }\n",
+	}},
+	{"fixed/by-product-option-path-extension-of-another-message", map[string]string{
+		"x.proto": "syntax = \"proto2\";\nimport \"google/protobuf/descriptor.proto\";\nmessage A { extensions 100 to 199; }\nmessage B { extensions 100 to 199; }\nextend A { optional int32 xa = 100; }\nextend google.protobuf.MessageOptions { optional B opt = 50001; }\nmessage M { option (opt).(xa) = 1; }\n",
+	}},
+	{"fixed/control-non-type-at-message-scope-is-skipped", map[string]string{
+		"b.proto": "syntax = \"proto2\";\npackage a.b;\nmessage T {}\nmessage Ext { extensions 100 to 199; }\nmessage Outer { extend Ext { optional int32 T = 100; } message M { optional T f = 1; } }\n",
+	}},
+	{"fixed/control-compound-name-is-not-skipped", map[string]string{
+		"a.proto": "syntax = \"proto2\";\npackage a;\nmessage T { message N {} }\n",
+		"b.proto": "syntax = \"proto2\";\npackage a.b;\nimport \"a.proto\";\nmessage T { }\nmessage M { optional T.N f = 1; }\n",
+	}},
+}
+
+// runC15Source compares the compiler with the reference on hand-written
+// sources: the verdict (some site fails ⇒ reject) and, when accepted, the
+// resolved name at every type / extendee / method site.
+func runC15Source(r *vlib.Run, c c15Fixed) {
+	var results []parser.Result
+	var fds []*descriptorpb.FileDescriptorProto
+	names := gen.SortedNames(c.src)
+	for _, n := range names {
+		res, err := parseUnlinked(n, c.src[n])
+		if err != nil {
+			r.Inconclusive("fixed case does not parse: " + c.id)
+			return
+		}
+		results = append(results, res)
+		fds = append(fds, res.FileDescriptorProto())
+	}
+	w := newWorld(fds)
+	out := gen.Compile(c.src, names, gen.Opts{Par: 1})
+	compiled := gen.Protos(out.Files)
+	r.Eval(c.id)
+	if out.Panic != nil {
+		r.Class("by-product: compiler panic at " + vlib.PanicSite(fmt.Sprint(out.Panic)) + " (fixed case " + c.id + ")")
+		r.Sample("by-product panic (fixed case "+c.id+")", map[string]any{"sources": c.src, "panic": trunc(fmt.Sprint(out.Panic), 1200)})
+		return
+	}
+	for _, res := range results {
+		var pf *descriptorpb.FileDescriptorProto
+		if out.OK() {
+			pf = compiled[res.FileDescriptorProto().GetName()]
+		}
+		sites, _ := unlinkedSites(w, res, pf)
+		for _, s := range sites {
+			e := w.expect(s.File, s.Site, s.Scopes, s.Name)
+			wit := map[string]any{"sources": c.src, "site": s, "reference": e, "compile_errors": out.ErrSummary()}
+			sig := s.Site + "; reference rules: " + sigTags(e.Tags)
+			switch e.What {
+			case expUndecided:
+				r.Class("fixed case site undecided")
+			case expFail:
+				if out.OK() {
+					r.Violation("c15.resolves-where-protoc-fails", sig+"; protoc: "+strings.SplitN(e.Why, ":", 2)[0]+"; here: accepted", c.id, wit)
+				}
+			case expResolves:
+				switch {
+				case !out.OK() && isResolutionErr(out.ErrSummary()) && strings.Contains(out.ErrSummary(), s.Name):
+					r.Violation("c15.fails-where-protoc-resolves", sig+"; here: "+resolutionErrClass(out.ErrSummary()), c.id, wit)
+				case out.OK() && s.Want != "" && s.Want != "."+e.To:
+					r.Violation("c15.resolves-differently", sig+"; here resolved to another element", c.id, wit)
+				}
+			}
+		}
+	}
+}
